@@ -239,6 +239,11 @@ func (p *Parser) ParseRemainingExpressionWithPrecedence(left ast.Expression, pre
 		if p.PeekToken.AfterNewline && (p.PeekToken.Type == token.INCREMENT || p.PeekToken.Type == token.DECREMENT) {
 			return left
 		}
+		// a token that binds tighter than the current level but has no infix parse
+		// function cannot continue the expression (and consumes nothing)
+		if p.infixParseFns[p.PeekToken.Type] == nil {
+			return left
+		}
 		left = p.ParseInfixExpression(left)
 	}
 	return left
